@@ -228,3 +228,13 @@ Proof.
   destruct 1 as [| i f st Hw Hi Ho | i p st c0 c1 Hw Hi Ho He H0 H1]; cbn [creduce erase reduce map]; auto.
   rewrite (erase_creduce_in n m c0 H0), (erase_creduce_in n m c1 H1). reflexivity.
 Qed.
+
+(* the arena-shaped operations denote the ptree operations the function-level properties (C02, C07, C08) speak about *)
+Theorem ops_denote :
+  (forall a t, erase (capply_func a t) = apply_func a (erase t)) /\
+  (forall h t, erase (cmap_terms h t) = map_terms h (erase t)) /\
+  (forall s L t, pshape L -> erase (clift s L t) = lift s (erase t) L) /\
+  (forall n m t, cwf n m t -> erase (creduce t) = reduce (erase t)).
+Proof.
+  split; [exact erase_capply_func | split; [exact erase_cmap | split; [exact erase_clift | exact erase_creduce]]].
+Qed.
